@@ -458,6 +458,31 @@ func runC09(r *Run) {
 
 	r.rule("R5", "pooled parameter maps: cleared before reuse, not used after Put (E4a/E1)", func() { pooledParamMapRule(r) })
 
+	r.rule("R10", "a type wildcard compares whole types: where acceptsOfferType tests one media type for being a prefix of the other, the prefix is cut behind the `/` (an index of '/' plus at least one) — a prefix cut in front of the separator makes `t/*` accept text/html and the offer text/* answer for textual/html (E5, offsets)", func() {
+		f := r.Fn("", "acceptsOfferType")
+		n := 0
+		for _, c := range callsMatching(f, false, nameIs("strings.HasPrefix")) {
+			sl, ok := c.Common.Args[1].(*ssa.Slice)
+			if !ok || sl.High == nil {
+				continue
+			}
+			n++
+			v, k := splitOffset(sl.High)
+			isSlashIndex := false
+			if ic, ok := stripValue(v).(*ssa.Call); ok && (calleeName(&ic.Call) == "strings.IndexByte" || calleeName(&ic.Call) == "strings.Index") && len(ic.Call.Args) == 2 {
+				if kk, isInt := constInt(asConst(stripValue(ic.Call.Args[1]))); isInt && kk == '/' {
+					isSlashIndex = true
+				}
+				if literalIs(ic.Call.Args[1], "/") {
+					isSlashIndex = true
+				}
+			}
+			r.check(isSlashIndex && k >= 1, fmt.Sprintf("acceptsOfferType:type-prefix#%d:includes-the-separator", n), r.pos(c.Instr), "the compared prefix ends behind the '/'",
+				"a media type is compared with the other one's text in front of the `/` only: the bare type is a prefix test, so the range t/* (or app/*) accepts text/html (application/json) and the offer text/* is selected for textual/html")
+		}
+		r.atLeast("type-prefix comparisons in acceptsOfferType", n, 1)
+	})
+
 	r.rule("R9", "a pooled parameter map is handed back once: a loop that returns the maps of the remaining ranges, run after the current range's own map went back, starts behind the current range (a map put into the pool twice is handed to two ranges of a later header, whose parameters overwrite each other) (E10)", func() {
 		f := r.Fn("", "getOffer")
 		type put struct {
